@@ -275,8 +275,12 @@ func (g *e2eGen) headers(p *callPlan) {
 	if g.rc.Prop == "C09" {
 		max = 6
 	}
+	// header names: mostly plain, sometimes of the kinds a careless "is this one of ours?" test gets wrong
+	prefix := func(plain string) string {
+		return []string{plain, plain, plain, plain, "_", "__", "_trace", strings.ToUpper(plain), "_opid2", "_cidX", "_timeout_", "tag2", "_" + plain}[tp.Intn("hdrname", 13)]
+	}
 	for i, n := 0, tp.Intn("hdr", max+1); i < n; i++ {
-		name := "h" + genString(tp, "hdr", 4)
+		name := prefix("h") + genString(tp, "hdr", 4)
 		val := genString(tp, "hdr", 12)
 		if tp.Intn("hdr", 12) == 0 {
 			val = strings.Repeat(val+"x", 40)
@@ -284,7 +288,11 @@ func (g *e2eGen) headers(p *callPlan) {
 		p.reqHdr[name] = val
 	}
 	for i, n := 0, tp.Intn("hdr", max+1); i < n; i++ {
-		p.respHdr["r"+genString(tp, "hdr", 4)] = genString(tp, "hdr", 12)
+		p.respHdr[prefix("r")+genString(tp, "hdr", 4)] = genString(tp, "hdr", 12)
+	}
+	if len(p.reqHdr) > 0 && tp.Intn("hdrname", 6) == 5 {
+		// a response header named like one of the request headers
+		p.respHdr[sortedKeys(p.reqHdr)[0]] = "resp-" + genString(tp, "hdr", 5)
 	}
 	if g.rc.Prop == "C09" && tp.Intn("hdr", 10) == 0 {
 		p.reqHdr[""] = "empty-name"
@@ -314,7 +322,7 @@ func (g *e2eGen) newPlan(id int) *callPlan {
 	tp := g.rc.Tape
 	p := &callPlan{id: id, tag: fmt.Sprintf("t%d", id), outcome: "ok"}
 	g.headers(p)
-	methods := []string{"basePing", "baseNote", "echoItem", "doVoid", "add", "blob", "bigString", "mixed", "many", "choose", "color", "stamp", "headersSeen", "fire"}
+	methods := []string{"basePing", "baseNote", "echoItem", "doVoid", "add", "blob", "bigString", "mixed", "URLFor", "many", "choose", "color", "stamp", "headersSeen", "fire"}
 	switch g.rc.Prop {
 	case "C16":
 		methods = []string{"basePing", "basePing", "basePing", "basePing", "echoItem", "doVoid", "fire", "baseNote"}
@@ -386,6 +394,11 @@ func (g *e2eGen) newPlan(id int) *callPlan {
 		}
 		p.args = []any{mk()}
 		p.ret = mk()
+	case "URLFor":
+		// a method (and argument names) starting with capitalised initialisms: every name-casing rule of the generator applies
+		p.args = []any{genString(tp, "val", 6), int32(tp.Intn("val", 600))}
+		p.outcome = outcome("ok", "ok", "undeclared", "appex")
+		p.ret = "http://" + genString(tp, "val", 8)
 	case "many":
 		n := tp.Intn("val", 4)
 		p.args = []any{int32(n)}
